@@ -221,6 +221,26 @@ func (ca *condAtoms) nilFlag(be *ast.BinaryExpr) int {
 	return ca.flagIndex(o)
 }
 
+// neverNil: the comparison is of nil with a local whose only definition is an address, a literal or an allocation
+// (`s := &T{}; if s == nil`): its outcome is known.
+func (ca *condAtoms) neverNil(be *ast.BinaryExpr) bool {
+	f := ca.g.Fn
+	var other ast.Expr
+	switch {
+	case f.IsNilLit(be.Y):
+		other = be.X
+	case f.IsNilLit(be.X):
+		other = be.Y
+	default:
+		return false
+	}
+	if _, isId := ast.Unparen(other).(*ast.Ident); !isId {
+		return false
+	}
+	r := f.Resolve(other)
+	return r != other && f.KnownNonNil(r)
+}
+
 func (ca *condAtoms) atomIndex(e ast.Expr) int {
 	for i, x := range ca.exprs {
 		if ca.g.Fn.SameValue(x, e) {
@@ -259,12 +279,18 @@ func (ca *condAtoms) form(e ast.Expr, depth int) *cform {
 		case token.LOR:
 			return &cform{op: gOr, kids: []*cform{ca.form(x.X, depth), ca.form(x.Y, depth)}, expr: x}
 		case token.NEQ:
+			if ca.neverNil(x) {
+				return &cform{op: gTrue, val: true}
+			}
 			if k := ca.nilFlag(x); k >= 0 {
 				return &cform{op: gNot, kids: []*cform{{op: gLeaf, atom: -1 - k}}}
 			}
 			eq := &ast.BinaryExpr{X: x.X, Op: token.EQL, Y: x.Y, OpPos: x.OpPos}
 			return &cform{op: gNot, kids: []*cform{{op: gLeaf, atom: ca.atomIndex(eq)}}}
 		case token.EQL:
+			if ca.neverNil(x) {
+				return &cform{op: gTrue, val: false}
+			}
 			if k := ca.nilFlag(x); k >= 0 {
 				return &cform{op: gLeaf, atom: -1 - k}
 			}
@@ -2095,6 +2121,88 @@ func (g *Graph) RegionEnds(start *cfg.Block, region ast.Node, guard Guard) []Ite
 		out = append(out, IterationEnd{From: k.b, Break: k.br, OK: bsSubset(st, ga.holds)})
 	}
 	return out
+}
+
+// FeasibleEscape reports whether some feasible path that starts by taking the edge reaches the end of the function, a
+// node satisfying limitNode, or a block satisfying limitBlock, without first passing a node satisfying via. Feasibility
+// is judged with the tracked flags and the conditions on the way (the path-sensitive counterpart of BranchAlways for
+// code in which the branch continues behind a join: `ok = false; goto done ... done: if !ok { return }`).
+func (g *Graph) FeasibleEscape(e Edge, via func(ast.Node) bool, limitNode func(ast.Node) bool, limitBlock func(*cfg.Block) bool) bool {
+	return g.feasibleEscape(e, via, limitNode, limitBlock, true)
+}
+
+// FeasiblyReaches reports whether some feasible path that starts by taking the edge gets to a node satisfying target.
+func (g *Graph) FeasiblyReaches(e Edge, target func(ast.Node) bool) bool {
+	return g.feasibleEscape(e, func(ast.Node) bool { return false }, target, nil, false)
+}
+
+func (g *Graph) feasibleEscape(e Edge, via func(ast.Node) bool, limitNode func(ast.Node) bool, limitBlock func(*cfg.Block) bool, exits bool) bool {
+	ga := g.newGuardAnalysis(GNever(), true)
+	start := ga.full()
+	if al := ga.edgeAllowed(e); al != nil {
+		start = bsIntersect(start, al)
+	}
+	if bsEmpty(start) {
+		return false
+	}
+	t := e.B.Succs[e.K]
+	if limitBlock != nil && limitBlock(t) {
+		return true
+	}
+	in := map[*cfg.Block][]uint64{t: start}
+	work := []*cfg.Block{t}
+	for len(work) > 0 {
+		b := work[len(work)-1]
+		work = work[:len(work)-1]
+		st := in[b]
+		stopped := false
+		for _, n := range b.Nodes {
+			if via(n) {
+				stopped = true
+				break
+			}
+			if limitNode != nil && limitNode(n) {
+				return true
+			}
+			st = ga.transferNode(n, st)
+		}
+		if stopped {
+			continue
+		}
+		if len(b.Succs) == 0 {
+			if k := g.exitKind(b); exits && (k == ExitReturn || k == ExitFall) {
+				return true
+			}
+			continue
+		}
+		for k, nb := range b.Succs {
+			nt := st
+			if al := ga.edgeAllowed(Edge{b, k}); al != nil {
+				nt = bsIntersect(st, al)
+			}
+			if bsEmpty(nt) {
+				continue
+			}
+			if limitBlock != nil && limitBlock(nb) {
+				return true
+			}
+			cur, ok := in[nb]
+			if !ok {
+				cp := make([]uint64, len(nt))
+				copy(cp, nt)
+				in[nb] = cp
+				work = append(work, nb)
+			} else if bsUnion(cur, nt) {
+				work = append(work, nb)
+			}
+		}
+	}
+	return false
+}
+
+// IsLoopHead reports whether the block is the head of a for / range loop (entered again for every iteration).
+func IsLoopHead(b *cfg.Block) bool {
+	return b.Kind == cfg.KindRangeLoop || b.Kind == cfg.KindForLoop || b.Kind == cfg.KindForPost
 }
 
 // BlockOutside reports whether the block lies outside the syntactic region.
